@@ -366,6 +366,8 @@ var reg = vk.Registry{
 	},
 }
 
+func init() { reg["sequence"] = vk.SequenceReplayer(reg) }
+
 func TestReplay(t *testing.T) { vk.RunReplay(t, reg) }
 
 func TestSelf(t *testing.T) {
@@ -384,7 +386,7 @@ func hexGen(maxLen int, nulFree bool) *rapid.Generator[string] {
 			b = rapid.SliceOfN(rapid.ByteRange(lo, 255), 0, maxLen).Draw(t, "s")
 		} else if cls == 1 && maxLen >= 300 {
 			// around and beyond 255/256 and larger: sizes no PDU field reaches
-			n := rapid.SampledFrom([]int{254, 255, 256, 257, 511, 512, 1000, 4096, 70000}).Draw(t, "biglen")
+			n := rapid.SampledFrom([]int{254, 255, 256, 257, 511, 512, 1000, 4096, 66000}).Draw(t, "biglen")
 			b = bytes.Repeat([]byte{byte(0x41 + n%20)}, n)
 		} else {
 			b = rapid.SliceOfN(rapid.ByteRange(lo, 255), 0, 12).Draw(t, "s")
@@ -449,7 +451,7 @@ func TestWriterHistories(t *testing.T) {
 			rec.Class("writer_trivial")
 		}
 		rec.Sample("writer", c)
-		rec.Report(t, "writer", checkWriter(c))
+		rec.ReportSeq(t, "writer", c, func() *vk.Violation { return checkWriter(c) })
 	})
 }
 
@@ -484,6 +486,6 @@ func TestReaderHistories(t *testing.T) {
 			rec.Class("reader_len>=3")
 		}
 		rec.Sample("reader", c)
-		rec.Report(t, "reader", checkReader(c))
+		rec.ReportSeq(t, "reader", c, func() *vk.Violation { return checkReader(c) })
 	})
 }
